@@ -7,6 +7,7 @@ CONSTANTS
   ModSeq <- Mods2
   MaxOut = 0
   GenRot = TRUE
+  GenBack = "all"
   MaxCtr = 1
   LoadCap = 1
   MaxReq = 0
